@@ -110,6 +110,12 @@ impl Iterator for FlopExhaustiveEvaluatorIterator {
             return None;
         }
 
+        for player_entry in self.player_entries.iter() {
+            if player_entry.is_empty() {
+                return None;
+            }
+        }
+
         let turn = self.current_deck[self.current_turn_index as usize];
         let river = self.current_deck[self.current_river_index as usize];
 
